@@ -47,6 +47,20 @@ def gen_crate(udir, bdir, repo, meta, log, functions):
                 out.append(raw)
                 log.append(dict(rule='copy', before=rel, after='copied verbatim (sha256 %s)' % hashlib.sha256(raw.encode()).hexdigest()[:16], where=fn))
                 continue
+            mr = re.match(r'\s*//@require_text\s+(\S+)\s+(\S+)\s+(.*)$', ln)
+            if mr:
+                # the harness re-types an expression of this function: insist that the function still contains it
+                rel, path, needle = mr.group(1), mr.group(2), mr.group(3).strip()
+                if rel not in srcs:
+                    srcs[rel] = Source(os.path.join(repo, rel))
+                loc = srcs[rel].find_fn(path)
+                body = srcs[rel].text[loc['start']:loc['end']]
+                if norm_ws(needle) not in norm_ws(body):
+                    raise KaniUndecided('%s no longer contains the expression the harness checks: %s' % (path, needle))
+                out.append('// (checked) %s contains: %s' % (path, needle))
+                functions.append(dict(path=path, file=rel, line_start=srcs[rel].line_of(loc['fn_kw']), line_end=srcs[rel].line_of(loc['end'] - 1),
+                                      sha256=hashlib.sha256(body.encode()).hexdigest(), mode='expression `%s` re-typed in the harness (presence checked)' % needle))
+                continue
             ma = re.match(r'\s*//@append\s+(\S+)', ln)
             if ma:
                 out.append(open(os.path.join(udir, ma.group(1))).read())
@@ -226,7 +240,7 @@ def run_unit(us, pid, tier, repo, build, root):
         return dict(per_obligation=[], failed=[], trusted=[], functions=[], extraction_log=[], cmds=[], bounded=[], covers={}, solver_ms=0)
     names = [h['name'] for h in hs]
     jobs = int(os.environ.get('VERIF_JOBS', '14'))
-    r = run_harnesses(bdir, build, names, jobs, meta.get('timeout_s', 3000))
+    r = run_harnesses(bdir, build, names, jobs, meta.get('timeout_s', 3000), extra=meta.get('kani_flags'))
     res = parse_output(r['text'])
     if r['timeout']:
         raise KaniUndecided('%s: kani run exceeded %ss' % (unit, meta.get('timeout_s', 3000)))
